@@ -6,6 +6,7 @@ Part specs are the dictionaries of mc/ir.py with exactly one divisions entry ("d
 times in a spec are integer positions in the part's own divisions, so the musical time of a position
 t is the exact fraction t/d quarters.  Nothing here calls partitura.
 """
+import json
 from fractions import Fraction
 from math import gcd
 
@@ -115,6 +116,45 @@ SHAPES_N = {
 }
 
 
+def forests(n, depth):
+    """every ordered forest with n leaves whose groups are nested at most `depth` deep: a forest is a list of
+    nodes, a node is a leaf (None here, numbered afterwards) or a group = non-empty list of nodes (groups
+    with a single child, also a single sub-group, included).  Deterministic order."""
+    if n == 0:
+        yield []
+        return
+    for k in range(1, n + 1):
+        for t in _trees(k, depth):
+            for rest_ in forests(n - k, depth):
+                yield [t] + rest_
+
+
+def _trees(n, depth):
+    if n == 1:
+        yield None
+    if depth > 0:
+        for f in forests(n, depth - 1):
+            yield f
+
+
+def number_leaves(forest):
+    """replace the leaves by 0, 1, ... in depth-first order (= the order of the part list of the case)"""
+    cnt = [0]
+
+    def go(x):
+        if x is None:
+            cnt[0] += 1
+            return cnt[0] - 1
+        return [go(c) for c in x]
+
+    return [go(x) for x in forest]
+
+
+def tree_shape(root, forest):
+    """shape string of a numbered forest under a root container in {list, tuple, group, score}"""
+    return "tree:%s:%s" % (root, json.dumps(forest, separators=(",", "")))
+
+
 def make_container(shape, parts, S):
     """Returns (argument for merge_parts, Score or PartGroup usable for a score-level array or None)."""
 
@@ -125,6 +165,26 @@ def make_container(shape, parts, S):
             c.parent = g
         return g
 
+    if shape.startswith("tree:"):
+        _, root, txt = shape.split(":", 2)
+        num = [0]
+
+        def node(x):
+            if isinstance(x, int):
+                return parts[x]
+            num[0] += 1
+            return grp([node(c) for c in x], "brace" if num[0] % 2 else "bracket", "g%d" % num[0], num[0])
+
+        top = [node(x) for x in json.loads(txt)]
+        if root == "list":
+            return top
+        if root == "tuple":
+            return tuple(top)
+        if root == "group":
+            return grp(top, "bracket", "root", 0)
+        if root == "score":
+            return S.Score(top, id="sc")
+        raise ValueError(shape)
     if shape == "part":
         return parts[0]
     if shape == "list":
